@@ -62,6 +62,13 @@ def _args(api, line, tools, d):
         if co:
             a.append("-t")
         return a
+    if api == "clisub":
+        tool, variant, infmt = (int(x) for x in t[:3])
+        inb, p = _take_list(t, 3)
+        open(os.path.join(d, "in"), "wb").write(bytes(inb))
+        name, opts = VERDICT_TOOLS[4 if tool == 14 else tool]
+        return [tools[name], os.path.join(d, "in"), "-i", FMT[infmt]] + opts[variant].split() + \
+               ["-R" if tool == 14 else "-N", os.path.join(d, "out")]
     if api == "cliverdict":
         tool, variant, infmt = (int(x) for x in t[:3])
         inb, p = _take_list(t, 3)
